@@ -43,6 +43,8 @@ var utInfos = []utInfo{
 	{ifs: []int{0, 1}},               // 33: the holder with an embedded `*T0` that carries a real wire tag
 	{ifs: []int{0, 1, 2}},            // 34: … an embedded `*T1` wired BY NAME (eptarget), required
 	{ifs: []int{0}, pp: true},        // 35: ordered (20) user post-processor with slots
+	{ifs: []int{0}, pp: true},        // 36: priority-ordered user post-processor that filters its argument slice in place (keeps the by-name wire points)
+	{ifs: []int{2}},                  // 37: the holder with two embedded structs that each declare a tagged field `Dep`
 }
 
 var namePool = []string{"a", "b", "c", "d", "e", "f", "ga", "gz", "h", "k", "la", "lz", "m", "n", "p", "q", "s", "t", "u", "w", "x", "y", "za", "zz"}
@@ -1122,6 +1124,7 @@ func graphCorpus(w *hx.Writer) {
 	graphCorpus7(r, w, 12, "corpus")
 	graphCorpus8(r, w, 10, "corpus")
 	emitGraph(genHugeScan(r.Fork()), []string{"corpus", "hugescan"}, w)
+	graphCorpus9(r.Fork(), w, 8, "corpus")
 }
 
 // ---- seventh round
@@ -1480,6 +1483,164 @@ func graphCorpus8(r *hx.Rng, w *hx.Writer, n int, tag string) {
 	}
 }
 
+// ---- ninth round
+
+// history 5: a lazy holder whose points are all BY NAME is looked up after another application — whose components carry
+// OTHER names — has started in the same process: required points naming components of its own application, optional points
+// naming a component that only the other application has
+func genLateNamed(r *hx.Rng) *gScen {
+	g := newBuilder(r)
+	np := 2 + r.Intn(2)
+	for i := 0; i < np; i++ {
+		g.addNode(g.randType(func(u utInfo) bool { return len(u.ifs) > 0 && !u.pp && !u.lazy && !u.runner && !u.closer }), false)
+	}
+	nh := 1 + r.Intn(2)
+	for j := 0; j < nh; j++ {
+		h := g.addNode([]int{5, 7, 12}[r.Intn(3)], r.P(1, 2))
+		g.sc.nodes[h].flt = fltLookup
+		switch r.Intn(3) {
+		case 0: // a required point naming a component of its own application
+			g.sc.nodes[h].slots["A0"] = "w" + g.nameOf(r.Intn(np))
+		case 1: // an optional point naming what only the other application has
+			g.sc.nodes[h].slots["A0"] = "w" + g.nameOf(r.Intn(np)) + "~v,required=false"
+		default: // both
+			g.sc.nodes[h].slots["A0"] = "w" + g.nameOf(r.Intn(np))
+			g.sc.nodes[h].slots["A1"] = "w" + g.nameOf(r.Intn(np)) + []string{"", ",required=false"}[r.Intn(2)]
+			g.sc.nodes[h].slots["A2"] = "w" + g.nameOf(r.Intn(np)) + "~v,required=false"
+		}
+	}
+	if r.P(1, 2) { // an eager holder next to them, wired at the start
+		k := g.addNode(g.randType(func(u utInfo) bool { return !u.pp && !u.lazy && !u.runner && !u.closer }), false)
+		g.edgeByName(k, r.Intn(np), false)
+	}
+	g.sc.hist = 5
+	return g.sc
+}
+
+// a priority-ordered user processor (type 36) that compacts its argument slice in place, keeping the by-name wire points;
+// holders with a by-TYPE point declared before by-name points (sometimes a configuration value too), cycles back to the holder
+func genInPlaceFilter(r *hx.Rng) *gScen {
+	g := newBuilder(r)
+	g.addNode(36, r.P(1, 2))
+	t0 := g.addNode(0, r.P(1, 2))
+	i1 := g.addNode([]int{2, 17, 2}[r.Intn(3)], r.P(1, 2)) // Ifc1 only
+	nh := 1 + r.Intn(2)
+	for j := 0; j < nh; j++ {
+		h := g.addNode([]int{13, 20, 8, 13}[r.Intn(4)], r.P(1, 3)) // no Ifc1, not a *T0: never a candidate of the points below
+		switch r.Intn(4) {
+		case 0:
+			g.sc.nodes[h].slots["P0"] = "w"
+		case 1:
+			g.sc.nodes[h].slots["X1"] = "w"
+		case 2:
+			g.sc.nodes[h].slots["S1"] = "w"
+		default:
+			g.sc.nodes[h].slots["P0"] = "w"
+			g.sc.nodes[h].slots["X1"] = "w"
+		}
+		g.sc.nodes[h].slots["A0"] = "w" + g.nameOf([]int{t0, i1}[r.Intn(2)])
+		if r.P(1, 2) {
+			g.sc.nodes[h].slots["A1"] = "w" + g.nameOf([]int{t0, i1}[r.Intn(2)]) + []string{"", ",required=false"}[r.Intn(2)]
+		}
+		if r.P(1, 3) {
+			g.sc.nodes[h].cfg = []int{1, 8, 4}[r.Intn(3)]
+		}
+		if r.P(1, 2) { // a cycle back to the holder
+			g.edgeByName([]int{t0, i1}[r.Intn(2)], h, false)
+		}
+	}
+	return g.sc
+}
+
+// the holder (type 37) with two embedded structs that each declare a tagged field `Dep` (*T0 and *T1, both required), on
+// cycles through either of them
+func genTwoEmbedded(r *hx.Rng) *gScen {
+	g := newBuilder(r)
+	t0 := g.addNode(0, r.P(1, 2))
+	t1 := -1
+	if r.P(7, 8) {
+		t1 = g.addNode(1, r.P(1, 2))
+	}
+	h := g.addNode(37, r.P(1, 2))
+	if r.P(1, 2) {
+		g.edgeByName(t0, h, false)
+	}
+	if t1 >= 0 && r.P(1, 2) {
+		g.edgeByName(t1, h, false)
+	}
+	if r.P(1, 2) {
+		g.sc.nodes[h].slots[[]string{"X0", "S1", "A0"}[r.Intn(3)]] = "w"
+	}
+	if r.P(1, 3) {
+		k := g.addNode(g.randType(func(u utInfo) bool { return !u.pp }), r.P(1, 2))
+		g.edgeByName(k, h, false)
+	}
+	return g.sc
+}
+
+// ordered runners with DISTINCT Order() values, each building on the one before it (it refuses to run first), sometimes a
+// priority-ordered one in front and an unordered one behind; nothing else in the population cares about any order
+func genRunnerChain(r *hx.Rng) *gScen {
+	g := newBuilder(r)
+	k := 2 + r.Intn(3)
+	ords := r.Perm(k) // node j gets the Order 10*(ords[j]+1): the registration sequence and the contract sequence are unrelated
+	byOrd := make([]int, k)
+	for j := 0; j < k; j++ {
+		n := g.addNode(9, false)
+		g.sc.nodes[n].ord = 10 * (ords[j] + 1)
+		byOrd[ords[j]] = n
+	}
+	for p := 1; p < k; p++ {
+		if r.P(4, 5) {
+			g.sc.nodes[byOrd[p]].runAfter = 1 + byOrd[p-1]
+		}
+	}
+	if r.P(1, 3) { // priority-ordered runners come before every ordered one
+		n := g.addNode(15, false)
+		g.sc.nodes[n].ord = 1000
+		g.sc.nodes[byOrd[0]].runAfter = 1 + n
+	}
+	if r.P(1, 2) { // an unordered runner comes after every ordered one
+		n := g.addNode(8, false)
+		g.sc.nodes[n].runAfter = 1 + byOrd[k-1]
+	}
+	if r.P(1, 2) {
+		h := g.addNode([]int{13, 2, 17}[r.Intn(3)], r.P(1, 2))
+		g.edgeByName(h, byOrd[r.Intn(k)], false)
+	}
+	return g.sc
+}
+
+// a non-lazy component that is never handed to the start: its definition is registered by a factory post-processor of the
+// application. Nobody — or one by-name point — asks for it; runners are present.
+func genExtraDefinition(r *hx.Rng) *gScen {
+	g := newBuilder(r)
+	g.addNode([]int{8, 9, 8}[r.Intn(3)], r.P(1, 2)) // a runner
+	n := 1 + r.Intn(2)
+	for i := 0; i < n; i++ {
+		g.addNode([]int{2, 13, 17, 2}[r.Intn(4)], r.P(1, 2))
+	}
+	x := g.addNode([]int{0, 1, 16, 20}[r.Intn(4)], r.P(1, 3))
+	g.sc.nodes[x].extra = true
+	if r.P(1, 4) { // somebody needs it: created on demand, whatever Refresh walks
+		g.edgeByName(1, x, false)
+	}
+	if r.P(1, 3) {
+		g.edgeByName(1, 0, false)
+	}
+	return g.sc
+}
+
+func graphCorpus9(r *hx.Rng, w *hx.Writer, n int, tag string) {
+	for i := 0; i < n; i++ {
+		emitGraph(genLateNamed(r.Fork()), []string{tag, "latenamed"}, w)
+		emitGraph(genInPlaceFilter(r.Fork()), []string{tag, "inplacefilter"}, w)
+		emitGraph(genTwoEmbedded(r.Fork()), []string{tag, "twoembedded"}, w)
+		emitGraph(genRunnerChain(r.Fork()), []string{tag, "runnerchain"}, w)
+		emitGraph(genExtraDefinition(r.Fork()), []string{tag, "extradef"}, w)
+	}
+}
+
 func graphGen(rng *hx.Rng, n int, tier string, w *hx.Writer) {
 	maxN := 7
 	if tier == "thorough" {
@@ -1592,9 +1753,14 @@ func graphGen(rng *hx.Rng, n int, tier string, w *hx.Writer) {
 		graphCorpus8(rng.Fork(), w, n/150+1, "round8")
 		// the start through ioc.Register + ioc.Run: ONE per process, the very last start of the run (ioc.Register's list is
 		// package-level and is never cleared)
+		var last *gScen
 		if !usedIocRegister {
 			usedIocRegister = true
-			last := genIocEntry(rng.Fork())
+			last = genIocEntry(rng.Fork())
+		}
+		// ninth-round templates (their fork is drawn after every earlier one: the streams above are as they were)
+		graphCorpus9(rng.Fork(), w, n/150+1, "round9")
+		if last != nil {
 			emitGraph(last, []string{"round8", "iocregister"}, w)
 		}
 	}
